@@ -311,3 +311,71 @@ Lemma float_rows_examples :
   /\ frun (select_cmp Ne KFloat32 FVar false) KBool KFloat32 2143289344 2143289344 = FO (FBool true)  (* NaN != NaN *)
   /\ frun (select_bin Sub KFloat64 FVar) KFloat64 KFloat64 9218868437227405312 9218868437227405312 = FO (FBits 9221120237041090560). (* inf - inf *)
 Proof. vm_compute. repeat split; reflexivity. Qed.
+
+(* ================================================================== 4. float32, unconditionally *)
+
+From Verif Require Num.FloatDR.
+
+Lemma dr_facts_hold : dr_facts.
+Proof.
+  constructor; [exact FloatDR.dr_plus | exact FloatDR.dr_minus | exact FloatDR.dr_mult | exact FloatDR.dr_div
+               | exact FloatDR.cmp_up | exact FloatDR.opp_up | exact FloatDR.down_up].
+Qed.
+
+Lemma widen_facts_hold : widen_facts.
+Proof. constructor; [exact FloatDR.cmp_up | exact FloatDR.opp_up | exact FloatDR.down_up]. Qed.
+
+Lemma table_float32_full :
+  forall r, In r op_table -> is_float_row r = true ->
+  exists s, fn_sem (r_fn r) = Some s /\
+    forall a b, fdenote r (fdest_kind r KFloat32) KFloat32 a b = fexpect r (g_frow s KFloat32 a b).
+Proof. exact (table_float32 dr_facts_hold). Qed.
+
+(** the source forms (row selection of Num/Model.v), both kinds *)
+Lemma sel_float_arith :
+  forall o k f a b, is_float k = true -> is_arith o = true -> In f forms4 ->
+  frun (select_bin o k f) k k a b = of_fres (g_fbin o k a b).
+Proof.
+  intros o k f a b Hk Ho Hf.
+  assert (Hok : frow_ok (bin_row (bin_fn o) o CFloat f) (FSBin o) = true)
+    by (destruct o; try discriminate; destruct Hf as [<-|[<-|[<-|[<-|[]]]]]; reflexivity).
+  destruct k; try discriminate; unfold select_bin; cbn [cls_of_kind signed unsigned]; unfold frun.
+  - pose proof (nf32 dr_facts_hold _ _ Hok a b) as E.
+    replace (fdest_kind (bin_row (bin_fn o) o CFloat f) KFloat32) with KFloat32 in E
+      by (destruct o; try discriminate; destruct Hf as [<-|[<-|[<-|[<-|[]]]]]; reflexivity).
+    rewrite E. cbn [g_frow]. destruct (g_fbin o KFloat32 a b); reflexivity.
+  - pose proof (nf64 _ _ Hok a b) as E.
+    replace (fdest_kind (bin_row (bin_fn o) o CFloat f) KFloat64) with KFloat64 in E
+      by (destruct o; try discriminate; destruct Hf as [<-|[<-|[<-|[<-|[]]]]]; reflexivity).
+    rewrite E. cbn [g_frow]. destruct (g_fbin o KFloat64 a b); reflexivity.
+Qed.
+
+Lemma conv_ff_full : forall kf kt a, is_float kf = true -> is_float kt = true -> y_fconv kf kt a = g_fconv kf kt a.
+Proof.
+  intros kf kt a Hf Ht. destruct kf; try discriminate; destruct kt; try discriminate;
+    first [apply (conv_ff_32_32 widen_facts_hold) | apply conv_ff_32_64 | apply conv_ff_64; reflexivity].
+Qed.
+
+Lemma f2int_full : forall kf kt a z, g_f2int kf kt a = Ok z -> y_f2int kf kt a = Ok z.
+Proof.
+  intros kf kt a z. destruct kf; try (unfold g_f2int; discriminate); [|apply f2int_64].
+  unfold g_f2int, y_f2int. cbn [fextract].
+  destruct (FloatDR.trunc_up (dec32 a)) as [T1 T2]. rewrite T1.
+  destruct (is_finite (dec32 a)); [|discriminate]. rewrite (T2 eq_refl).
+  destruct (is_int kt) eqn:Hk; cbn [andb]; [|discriminate].
+  destruct (in_range kt (Btrunc (dec32 a))) eqn:Hr; [|discriminate].
+  intros H. injection H as <-. rewrite (in_range_64 kt _ Hk Hr). rewrite (wrap_id kt _ Hk Hr). reflexivity.
+Qed.
+
+(** when the float64 result is a float32 value the store does not round (instance of the full
+    theorem; kept as the statement that needs no double-rounding argument to be believed) *)
+Lemma float32_exact_partial :
+  forall o a b, is_arith o = true ->
+  forall z, farith o (up (dec32 a)) (up (dec32 b)) = Some z -> exact32 z = true ->
+  frun (select_bin o KFloat32 FVar) KFloat32 KFloat32 a b = of_fres (g_fbin o KFloat32 a b).
+Proof. intros o a b Ho z _ _. apply sel_float_arith; [reflexivity | exact Ho | right; right; right; left; reflexivity]. Qed.
+
+Lemma float32_exact_inhabited :
+  exact32 (plus64 (up (dec32 1065353216)) (up (dec32 1073741824))) = true          (* 1 + 2 *)
+  /\ exact32 (plus64 (up (dec32 1065353216)) (up (dec32 864026624))) = false.      (* 1 + 2^-24 *)
+Proof. vm_compute. split; reflexivity. Qed.
